@@ -125,8 +125,8 @@ def check(run):
 
     from .c06 import depends_on
     depends_on(run, "C10")
-    depends_on(run, "C12", {"TYPESTATE", "NOMUT", "FORMULA", "ZERODIV"})
-    depends_on(run, "C06", {"MERGE", "KEYS", "COUNT", "VALUE"})
+    depends_on(run, "C12", {"TYPESTATE", "NOMUT", "FORMULA", "ZERODIV", "COPY"})
+    depends_on(run, "C06", {"MERGE", "KEYS", "COUNT", "VALUE", "COPY"})
     depends_on(run, "C15", {"DEFAULTS", "CTOR"}, only=lambda rule, inst: inst.startswith("IncrementalSage"))
     # ---- N ---------------------------------------------------------------------------------------
     sticky = [ev for ev, _ in walk(s.events) if isinstance(ev, ir.Store) and ev.field == "n_inner_samples"]
